@@ -61,7 +61,19 @@ pub const NESTED_PATTERNS: &[&str] = &[
 
 /// letters with more than two case forms (Unicode simple case folding: sigma, long s, micro sign, kelvin sign) in the
 /// literal part: "ignore case" is the regex engine's folding, not to_lowercase()
-pub const FOLD_PATTERNS: &[&str] = &[r"/ς/(?:[a-z]+)", r"/σκ/(?:[0-9]+)", r"/ſt/(?:[a-z]+)", r"/µ/(?:[a-z]+)", r"/K/(?:[a-z]+)", r"/a/(?:[a-z]+)"];
+pub const FOLD_PATTERNS: &[&str] = &[
+    r"/ς/(?:[a-z]+)",
+    r"/σκ/(?:[0-9]+)",
+    r"/ſt/(?:[a-z]+)",
+    r"/µ/(?:[a-z]+)",
+    r"/K/(?:[a-z]+)",
+    r"/a/(?:[a-z]+)",
+    // two patterns sharing a NODE prefix with a non-ASCII cased letter (looked up in the other case), a pattern that shares no
+    // prefix with the others (catch-all root node) and accepts a line feed
+    r"/É/(?:[a-z]+)",
+    r"/É/(?:[0-9]+)",
+    r"(?:[^/]+)\.example",
+];
 
 /// marker expressions whose character classes contain parentheses (own signature family)
 pub const CLASS_PATTERNS: &[&str] = &[
@@ -84,6 +96,7 @@ pub const HAYSTACKS: &[&str] = &[
     "abc/x", "Abc/x", "bc/x", "ABC/X",
     "/w/q/c0", "/w/q/c1", "/w/q/c4", "/w/q/c8", "/w/q/c9", "/w/q/c10", "/W/Q/C9",
     "/a/c/q/d", "/a/c/q/e", "/a/c/q/e/f", "/x/q", "/y/q", "/x/y/7", "/x/y",
+    "/é/b", "/É/b", "/é/7", "a\nb.example", "/É/b\n",
     "/ς/b", "/Σ/b", "/σ/b", "/σκ/1", "/ΣΚ/1", "/ςκ/1", "/ſt/b", "/st/b", "/ST/b", "/µ/b", "/μ/b", "/Μ/b", "/K/b", "/k/b", "/\u{212a}/b",
 ];
 
@@ -143,6 +156,13 @@ impl Tree {
         };
         v.sort();
         v
+    }
+    /// as returned (children are visited in Vec order: warming the cache must not reorder them)
+    fn find_ordered(&self, h: &str) -> Vec<String> {
+        match self {
+            Tree::Multi(t) => t.find(h).into_iter().cloned().collect(),
+            Tree::Unique(t) => t.find(h).into_iter().cloned().collect(),
+        }
     }
     fn len(&self) -> usize {
         match self {
@@ -359,6 +379,15 @@ impl<'a> Model<'a> {
                     let mut second = None;
                     for (hi, hay) in HAYSTACKS.iter().enumerate() {
                         let after = t.find(hay);
+                        if after == before[hi] && after.len() > 1 && t.find_ordered(hay) != s.tree.find_ordered(hay) {
+                            self.violation(
+                                "tree-cache-changes-result-order",
+                                &format!("limit={limit},level={level:?}"),
+                                format!("find({hay:?}) returns {:?} before cache({limit},{level:?}) and {:?} after (same values, other order)", s.tree.find_ordered(hay), t.find_ordered(hay)),
+                                h,
+                            );
+                            break;
+                        }
                         if after != before[hi] {
                             self.violation(
                                 "tree-cache-changes-find",
